@@ -69,6 +69,11 @@ def merge(a, b):
             have.add(v["key"])
     if len(a["samples"]) < 5:
         a["samples"].extend(b["samples"][: 5 - len(a["samples"])])
+    fa = a.setdefault("fam", {})
+    for k, v in b.get("fam", {}).items():
+        cur = fa.setdefault(k, [0, 0.0])
+        cur[0] += v[0]
+        cur[1] += v[1]
     a["capped"] = a["capped"] or b["capped"]
     a["max_dev"] = max(a["max_dev"], b["max_dev"])
     a["extra_runs"] += b["extra_runs"]
